@@ -7,6 +7,7 @@ From Coq Require Import String.
 From Coq Require Import NArith ZArith List Bool.
 Import ListNotations.
 From PV Require Import Yanny.Bytes Yanny.Types Yanny.Parse Yanny.Render.
+From PV Require C03.SkelLang Generated.YannyOps.
 Open Scope N_scope.
 
 (* ---------------------------------------------------------------- file system: absent = no file *)
@@ -94,6 +95,14 @@ Fixpoint append_rows (names : list bytes) (d : adata) : option bytes :=
       end
   end.
 
+(* Does the append() of the CURRENT source terminate an unterminated last line before its marker line?  Read off the
+   skeleton that translate/c03.py regenerates from yanny.py on every run (Generated/YannyOps.v).  Without that statement
+   the marker is glued to the last line of a file that lacks a final newline. *)
+Definition append_fix : bool := SkelLang.skel_has_terminator YannyOps.append_skel.
+Definition ends_with (suffix s : bytes) : bool := beq suffix (skipn (length s - length suffix) s).
+Definition append_sep (c : bytes) : bytes :=
+  if append_fix then match c with [] => [] | _ => if ends_with [NL] c then [] else [NL] end else [].
+
 Definition do_append (fs : fsys) (o : obj) (d : adata) (clock : bytes) : fsys * obj * outcome :=
   match o_file o with
   | [] => (fs, o, ValueErr)
@@ -103,7 +112,7 @@ Definition do_append (fs : fsys) (o : obj) (d : adata) (clock : bytes) : fsys * 
         match ps ++ rs with
         | [] => (fs, o, Warned)
         | body =>
-            let new := S_APPENDED ++ clock ++ [46; NL] ++ body in
+            let new := append_sep (o_contents o) ++ S_APPENDED ++ clock ++ [46; NL] ++ body in
             match fs_get fs (o_file o) with
             | None => (fs, o, Refused)
             | Some old =>
